@@ -80,6 +80,13 @@ def gen_scenario(rng: Any, i: int) -> dict:
     if const_event:
         handlers.append({"kind": "event", "id": "e0", "script": [], "default": ["ok", {"state": "seen"}]})
         body0["status"] = {"e0": {"state": "seen"}}
+        # EXCLUDED AT GENERATION (stated limit of the model, its turn is atomic): with a constant patch a cycle that SLEEPS sends two
+        # requests — the constant one before the sleep, the touch after it — and a foreign write can land between them (the first is
+        # answered with the old version: no "change", the sleep is taken; the model, seeing the write before the turn, takes the view
+        # for stale: GLUE 7, no sleep). So no handler of such a scenario asks for a retry delay: no cycle ever has delays to sleep.
+        for h in handlers:
+            if h["kind"] in ("create", "update"):
+                h["script"] = ["perm" if isinstance(a, list) and a and a[0] == "temp" else a for a in h.get("script", [])]
     timeline: list[list] = [[t_create, "create", "a", body0]]
     window = (L + R) * 4 + own + foreign + 64
     x = 0
@@ -253,6 +260,14 @@ def abstract(sc: dict, tr: dict) -> dict:
         tables[c["i"]] = table
 
     const_patch = any(h["kind"] == "event" and isinstance(h.get("default"), list) and len(h["default"]) > 1 for h in sc["handlers"])
+    if const_patch and any(c.get("pcc") is not None and (c.get("apply") or {}).get("delays") for c in cycles):
+        # the same class, for histories that do not come from `gen_scenario` (corpus, replays): not compared, counted
+        raise Skip("const-patch+sleeping-cycle")
+    for ci, rvs in wrote.items():
+        # … and its exact shape wherever it occurs (e.g. a held-back cycle that sleeps the waiting time and touches): the cycle's first
+        # request was answered with a version BELOW a foreign one that is below the version the cycle then made
+        if ci in answered and any(answered[ci] < int(f) < int(rvs[0]) for f in rank if f not in writer):
+            raise Skip("two-requests-of-one-cycle-straddle-a-foreign-write")
     # sequence the adversary's actions: versions in the server's order; a worker iteration right where its write landed
     acts: list[dict] = []
     impl: list[dict | None] = []
